@@ -73,6 +73,18 @@ def is_error_edge(body, bi, target):
     return False
 
 
+_CUR = {}
+
+
+def _unsafe_cursor(prog, cg):
+    """name of the unchecked writer's cursor field (inferred: the field its scalar writers increment by a constant)"""
+    if id(prog) not in _CUR:
+        import unsafe_codec
+        import thrift_pairs
+        _CUR[id(prog)] = unsafe_codec.roles(thrift_pairs.Fam(prog, cg, 'binary_unsafe'))['w_cursor']
+    return _CUR[id(prog)]
+
+
 def path_width(body, prog, cg, fam_methods, memo, depth=0):
     """Width written on every non-error path of a writer method, or None if paths disagree / unknown ops"""
     body = codec.effective_body(body, cg)
@@ -106,11 +118,11 @@ def path_width(body, prog, cg, fam_methods, memo, depth=0):
                     w = sub
         # unchecked writer: raw stores leave no wire token; the cursor advance is the width
         for st in bb['st']:
-            if 'p' in st and codec.self_field_of_place(body, st['p']) == 'index' and 'binary_unsafe' in body.key:
+            if 'p' in st and 'binary_unsafe' in body.key and codec.self_field_of_place(body, st['p']) == _unsafe_cursor(prog, cg):
                 rv = body.expr_rvalue(st['r'])
                 if rv[0] == 'field' and rv[2] == '0':
                     rv = rv[1]
-                if rv[0] == 'bin' and rv[1] in ('Add', 'AddWithOverflow') and rv[2][0] == 'field' and rv[2][2] == 'index':
+                if rv[0] == 'bin' and rv[1] in ('Add', 'AddWithOverflow') and rv[2][0] == 'field' and rv[2][2] == _unsafe_cursor(prog, cg):
                     inc = strip_casts(rv[3])
                     if inc[0] == 'const':
                         w = w + Width(inc[1])
